@@ -65,16 +65,21 @@ Definition copy_pipeline (setup_opt exec_opt : Z) (write_jfif write_adobe : bool
   | Some (_, ms, _) => Some (copy_execute exec_opt write_jfif write_adobe ms)
   end.
 
-(* tj3Transform, per transform: jcopy_markers_execute(...) followed by
-     if (this->iccBuf != NULL && this->iccSize != 0) jpeg_write_icc_profile(cinfo, iccBuf, iccSize);
-   TJ_TRANSFORM_ICC_UNCONDITIONAL (generated from the source) says whether that second statement
-   depends on the copy option.  icc_buf = [] stands for "no profile set with tj3SetICCProfile". *)
+(* tj3Transform, per transform: jcopy_markers_execute(dinfo, cinfo, copyOption), then
+     iccCopied = (copyOption is JCOPYOPT_ALL or JCOPYOPT_ICC) and the source marker list holds an APP2 marker
+                 of at least TJ_ICC_COPIED_MINLEN bytes starting with tj_icc_copied_sig;
+     if (this->iccBuf != NULL && this->iccSize != 0 && !iccCopied) jpeg_write_icc_profile(cinfo, iccBuf, iccSize);
+   TJ_TRANSFORM_ICC_UNCONDITIONAL = 1 (generated from the source) stands for the older text without the
+   iccCopied test.  icc_buf = [] stands for "no profile set with tj3SetICCProfile". *)
 Definition copies_app2 (opt : Z) : bool := (opt =? JCOPYOPT_ALL) || (opt =? JCOPYOPT_ICC).
+Definition tj_icc_marker (m : saved) : bool :=
+  (sm_code m =? JPEG_APP0 + 2) && (TJ_ICC_COPIED_MINLEN <=? Zlength (sm_data m)) && has_prefix tj_icc_copied_sig (sm_data m).
+Definition tj_icc_copied (opt : Z) (src : list saved) : bool := copies_app2 opt && existsb tj_icc_marker src.
 Definition tj_transform_extras (save_markers : Z) (copynone write_jfif write_adobe : bool)
   (src : list saved) (icc_buf : list Z) : list segment :=
   let opt := tj_execute_option save_markers copynone in
   copy_execute opt write_jfif write_adobe src ++
-  (if (TJ_TRANSFORM_ICC_UNCONDITIONAL =? 1) || negb (copies_app2 opt) then
+  (if (TJ_TRANSFORM_ICC_UNCONDITIONAL =? 1) || negb (tj_icc_copied opt src) then
      match icc_buf with
      | [] => []
      | _ => match write_icc icc_buf with Some segs => segs | None => [] end
